@@ -81,6 +81,8 @@ def fake_exec(code, data):
         sys.modules["colorsys"] = None               # ... rebind ...
     elif state["tamper"] == 3:
         sys.modules["verif_fake_module"] = sys       # ... or add entries of the module table
+    elif state["tamper"] == 4:
+        sys.modules = dict(sys.modules)              # ... or rebind the table itself
     if "_" not in data:
         data["_"] = 0
     fac = TERMINATIONS[state["term"]][1]
